@@ -598,8 +598,11 @@ mod ir_builder {
                     (ty, ret)
                 }
 
+            // An asm op and its operands are always on one line. Operands must not be looked for
+            // past the end of the line: an op that carries no metadata has nothing else that
+            // separates it from the op on the next line.
             rule asm_op() -> IrAstAsmOp
-                = name:id_id() args:asm_op_arg()* imm:asm_op_arg_imm()? meta_idx:comma_metadata_idx()? {
+                = name:asm_id() args:asm_op_arg()* imm:asm_op_arg_imm()? meta_idx:comma_metadata_idx()? _ {
                     IrAstAsmOp {
                         name,
                         args,
@@ -609,13 +612,18 @@ mod ir_builder {
                 }
 
             rule asm_op_arg() -> Ident
-                = !asm_op_arg_imm() arg:id_id() {
+                = !asm_op_arg_imm() arg:asm_id() {
                     arg
                 }
 
             rule asm_op_arg_imm() -> Ident
-                = imm:$("i" d:decimal()) {
+                = imm:$("i" dec_digits()) __ {
                     Ident::new(Span::new(imm.into(), 0, imm.len(), None).unwrap())
+                }
+
+            rule asm_id() -> Ident
+                = id:$(id_char0() id_char()*) __ {
+                    Ident::new(Span::new(id.into(), 0, id.len(), None).unwrap())
                 }
 
             rule constant() -> IrAstConst
